@@ -81,10 +81,33 @@ func (c *LimitParallelRequests) acquireEndpoint(ctx context.Context, endpointLim
 	})
 	select {
 	case <-ctx.Done():
-		c.releaseEndpoint(endpointLimitKey)
+		c.cancelEndpoint(endpointLimitKey, reqChan)
 		return ctx.Err()
 	case <-reqChan:
 		return nil
+	}
+}
+
+// cancelEndpoint withdraws a canceled request: a request that is still waiting is removed from the queue
+// (it owns no slot, so it must not hand one to another waiter); a request that has already been granted
+// the slot gives it back.
+func (c *LimitParallelRequests) cancelEndpoint(endpointLimitKey uint64, reqChan chan struct{}) {
+	granted := false
+	_, _ = c.endpointQueues.ReplaceWithFunc(endpointLimitKey, func(oldValue *endpointQueue, oldLoaded bool) (newValue *endpointQueue, doDelete bool) {
+		if !oldLoaded {
+			return nil, true
+		}
+		for i, ch := range oldValue.orderedRequest {
+			if ch == reqChan {
+				oldValue.orderedRequest = append(oldValue.orderedRequest[:i], oldValue.orderedRequest[i+1:]...)
+				return oldValue, false
+			}
+		}
+		granted = true
+		return oldValue, false
+	})
+	if granted {
+		c.releaseEndpoint(endpointLimitKey)
 	}
 }
 
